@@ -153,7 +153,17 @@ func check(args []string) int {
 		}
 		if *noEvidence {
 			// variant mode: print obligations that are violated, machine-readable
+			known, _ := core.LoadKnown(filepath.Join(*verif, "known_findings.json"))
 			for _, o := range res.Obs {
+				isKnown := false
+				for _, kf := range known {
+					if kf.Status == "known" && kf.Property == p.ID && kf.Rule == o.Rule && kf.Key == o.Key {
+						isKnown = true
+					}
+				}
+				if isKnown {
+					continue
+				}
 				if o.Verdict == core.Violated || o.Verdict == core.Undecided {
 					fmt.Printf("VARIANT-REPORT %s\t%s\t%s\t%s\n", o.Verdict, o.Rule, o.Key, o.Pos)
 				}
@@ -191,4 +201,3 @@ func defaultVerif() string {
 	}
 	return wd
 }
-
